@@ -385,6 +385,13 @@ class Runner(Exec):
                 return
             self.do_loop(st, s, ("range", lo, hi, step))
             return
+        if (it.func.id == "reversed" and len(it.args) == 1 and isinstance(it.args[0], ast.Call) and isinstance(it.args[0].func, ast.Name)
+                and it.args[0].func.id == "range" and "range" not in st.env and len(it.args[0].args) in (1, 2)):
+            # reversed(range(a, b)): b-1, b-2, ..., a
+            rargs = [as_int(ctx, st, self.ev(st, a), s) for a in it.args[0].args]
+            lo, hi = (z3.IntVal(0), rargs[0]) if len(rargs) == 1 else (rargs[0], rargs[1])
+            self.do_loop(st, s, ("range", hi - 1, lo - 1, -1))
+            return
         if it.func.id in ("reversed", "enumerate") and len(it.args) == 1:
             seq = self.ev(st, it.args[0])
             if seq.k == "tuple" or (seq.k == "conc" and isinstance(seq.z, (list, tuple))):
